@@ -43,7 +43,7 @@ def run(ctx):
 
     quick = ctx.quick
     rng = random.Random(ctx.seed)
-    ctx.mc("NStep_MC", "NStep_MC.cfg" if quick else "NStep_MCt.cfg", must_cover=["AddAny|Add"])
+    ctx.mc("NStep_MC", "NStep_MC.cfg" if quick else "NStep_MCt.cfg", must_cover=["AddAny|Add"], timeout=3000)
     traces = []
 
     def rewards(t, E):
